@@ -245,7 +245,7 @@ pub fn run_case(out: &mut Out, rng: &mut Rng, thorough: bool, case_no: u64) {
     c::fresh_init(network, thr as u128, None);
     out.begin_case(&format!("ledger net={} thr={} mode={}", c::net_name(network), thr, mode as u8));
     out.emit(
-        &format!("c init {} {} {}", c::net_name(network), thr, c::block_text(&case.world.nodes[0].block, network)),
+        &format!("c init {} {} {} {}", c::net_name(network), thr, c::block_text(&case.world.nodes[0].block, network), c::block_hex(&case.world.nodes[0].block)),
         "-",
     );
     let steps = if thorough { rng.range(20, 120) } else { rng.range(8, 40) };
@@ -276,7 +276,7 @@ pub fn run_case(out: &mut Out, rng: &mut Rng, thorough: bool, case_no: u64) {
             };
             let idx = case.world.new_block(rng, parent, &opts);
             let block = case.world.nodes[idx].block.clone();
-            let text = c::block_text(&block, network);
+            let text = format!("{} {}", c::block_text(&block, network), c::block_hex(&block));
             let obs = c::push_direct(block);
             out.emit(&format!("c push {}", text), &obs);
             out.count(&format!("push:{}", obs));
@@ -367,13 +367,13 @@ pub fn run_many_outputs_case(out: &mut Out, rng: &mut Rng) {
     let mut case = Case { pre_ingest: None, walk: None, world, alive: vec![0], network, thr, mode: DiffMode::Equal };
     c::fresh_init(network, thr as u128, None);
     out.begin_case("ledger many-outputs");
-    out.emit(&format!("c init regtest {} {}", thr, c::block_text(&case.world.nodes[0].block, network)), "-");
+    out.emit(&format!("c init regtest {} {} {}", thr, c::block_text(&case.world.nodes[0].block, network), c::block_hex(&case.world.nodes[0].block)), "-");
     let plain = BlockOpts { max_txs: 0, max_outputs: 2, many_outputs: None, difficulty: 1, mine: false, time: None, bits: None };
     let mut tip = 0usize;
     let push = |out: &mut Out, case: &mut Case, rng: &mut Rng, parent: usize, opts: &BlockOpts| -> usize {
         let idx = case.world.new_block(rng, parent, opts);
         let block = case.world.nodes[idx].block.clone();
-        let text = c::block_text(&block, network);
+        let text = format!("{} {}", c::block_text(&block, network), c::block_hex(&block));
         out.emit(&format!("c push {}", text), &c::push_direct(block));
         idx
     };
